@@ -85,14 +85,18 @@ type VC struct {
 	entry     *State
 	inputs    []InputVar
 	noFrame   bool
+	regionHavocOn bool
 	modSet    []modItem
 	merges    map[string][]string // merged reach constant -> its edge conditions
+	rowOf     map[string]Term     // slice term -> its backing array as a value (spec parameters)
+	specFactCache map[*ssa.Function]*specFacts
+	specHeapCache map[*ssa.Function][]string
 }
 
 func NewVC(L *Loaded, fn *ssa.Function, ct *Contract) *VC {
 	vc := &VC{L: L, ss: NewSorts(), fn: fn, ct: ct, gdefs: map[string]*GDef{}, heapSorts: map[string]Sort{},
 		specBusy: map[*ssa.Function]bool{}, assumptions: map[string]bool{}, inlined: map[string]bool{}, callees: map[string]bool{},
-		safeCount: map[string]int{}, entryHeaps: map[string]Term{}, merges: map[string][]string{}}
+		safeCount: map[string]int{}, entryHeaps: map[string]Term{}, merges: map[string][]string{}, rowOf: map[string]Term{}, specFactCache: map[*ssa.Function]*specFacts{}, specHeapCache: map[*ssa.Function][]string{}}
 	return vc
 }
 
@@ -607,7 +611,7 @@ func (vc *VC) pickPatterns(body string, bv string) []string {
 			}
 			g, ok := vc.gdefs[head]
 			if (ok && g.Decl != "" && !strings.HasPrefix(g.Decl, "(declare-datatypes")) || strings.HasPrefix(head, "elem.") {
-				if !strings.Contains(term, "(let ") && !seen[term] {
+				if !strings.Contains(term, "(let ") && !seen[term] && patternOK(vc.expandDefs(term)) {
 					seen[term] = true
 					pats = append(pats, term)
 				}
@@ -623,6 +627,15 @@ func (vc *VC) pickPatterns(body string, bv string) []string {
 		pats = pats[:4]
 	}
 	return pats
+}
+
+func patternOK(t string) bool {
+	for _, bad := range []string{"(not ", "(and ", "(or ", "(=> ", "(= ", "(ite ", "(< ", "(<= ", "(> ", "(>= ", "(forall ", "(exists ", "(distinct "} {
+		if strings.Contains(t, bad) {
+			return false
+		}
+	}
+	return true
 }
 
 func withPatterns(body string, pats []string) string {
